@@ -55,6 +55,9 @@ enum SigFault {
     /// copy hint-section byte a over byte b
     Dup(usize, usize),
     MultiBit(Vec<usize>),
+    /// the hint section (kinds 0..3) or the whole signature (kinds 4..7) reads back as a memory-test
+    /// pattern: 0xAA, 0x55, address-in-data (low byte of the absolute offset), ramp from 0
+    Pattern(u8),
 }
 
 impl SigFault {
@@ -65,6 +68,7 @@ impl SigFault {
             SigFault::Swap(..) => "byte_reorder",
             SigFault::Dup(..) => "byte_duplicate",
             SigFault::MultiBit(_) => "multi_bit_rot",
+            SigFault::Pattern(_) => "test_pattern_fill",
         }
     }
     fn to_json(&self) -> Value {
@@ -74,6 +78,7 @@ impl SigFault {
             SigFault::Swap(a, b) => json!({"kind":"byte_reorder","hint_offsets":[a, b]}),
             SigFault::Dup(a, b) => json!({"kind":"byte_duplicate","hint_offsets":[a, b]}),
             SigFault::MultiBit(b) => json!({"kind":"multi_bit_rot","bits":b}),
+            SigFault::Pattern(k) => json!({"kind":"test_pattern_fill","pattern":k}),
         }
     }
     fn apply(&self, info: &SetInfo, sig: &mut [u8]) {
@@ -86,6 +91,17 @@ impl SigFault {
             SigFault::MultiBit(bits) => {
                 for b in bits {
                     sig[b / 8] ^= 1 << (b % 8);
+                }
+            }
+            SigFault::Pattern(k) => {
+                let lo = if *k < 4 { hs } else { 0 };
+                for i in lo..sig.len() {
+                    sig[i] = match k % 4 {
+                        0 => 0xAA,
+                        1 => 0x55,
+                        2 => i as u8,
+                        _ => (i - lo) as u8,
+                    };
                 }
             }
         }
@@ -158,6 +174,9 @@ fn faults_for(info: &SetInfo, seed: u64, u: &Unit) -> Vec<SigFault> {
         for val in [0x00u8, 0xFF, 0x7F, 0x80, 0x01] {
             v.push(SigFault::Stuck(p, val));
         }
+    }
+    for k in 0..8u8 {
+        v.push(SigFault::Pattern(k));
     }
     for a in 0..hl - 1 {
         v.push(SigFault::Swap(a, a + 1));
@@ -374,7 +393,7 @@ pub fn run(ctx: &Ctx) -> i32 {
         level: "fault_enumeration",
         evaluations: evals,
         signatures: sigs.into_iter().collect(),
-        rule: "Per seeded honest signature: every single-bit flip of c-tilde and z (whole-signature sweep on a few signatures per set); on many more signatures every single-bit flip of the hint section, stuck-at {00, FF, 7F, 80, 01} at every hint byte, reorder (swap) and duplication of adjacent hint bytes - the channel's reorder/duplicate faults at byte granularity - and seeded 2..4-bit rot and random swaps inside the hint section. Oracle, both directions, against a restated Algorithm 21 as reference model: sigDecode (through the verif-hooks wrapper) accepts iff the model accepts, and every accepted byte string re-encodes to itself. Key-level stratum for the bijection clause: every single-bit flip of a stored private and public key; whatever still loads must serialise back to exactly the corrupted bytes. A case is distinct by (set, fault kind, rule of Algorithm 21 the corrupted hint section breaks or `wellformed`).".into(),
+        rule: "Per seeded honest signature: every single-bit flip of c-tilde and z (whole-signature sweep on a few signatures per set); on many more signatures every single-bit flip of the hint section, stuck-at {00, FF, 7F, 80, 01} at every hint byte, memory-test pattern fills of the hint section and of the whole signature (0xAA, 0x55, address-in-data, ramp), reorder (swap) and duplication of adjacent hint bytes - the channel's reorder/duplicate faults at byte granularity - and seeded 2..4-bit rot and random swaps inside the hint section. Oracle, both directions, against a restated Algorithm 21 as reference model: sigDecode (through the verif-hooks wrapper) accepts iff the model accepts, and every accepted byte string re-encodes to itself. Key-level stratum for the bijection clause: every single-bit flip of a stored private and public key; whatever still loads must serialise back to exactly the corrupted bytes. A case is distinct by (set, fault kind, rule of Algorithm 21 the corrupted hint section breaks or `wellformed`).".into(),
         samples,
         exhaustive: false,
         extra: json!({
